@@ -48,6 +48,26 @@ def _val_lanes(st, v, width):
     return (ls + [0] * width)[:width]
 
 
+def _scheme_bits_of(st):
+    """Bits (23, 22, 15) of the frames of a leaf; when the leaf is the
+    'no entry matched' world of a table lookup the bits are only known
+    through what they are not, so the combinations still possible are
+    enumerated."""
+    b = (lane_val(st, ("in", 23)), lane_val(st, ("in", 22)),
+         lane_val(st, ("in", 15)))
+    if None not in b:
+        return b
+    import itertools
+    from ..codec import assume, satisfiable
+    cands = []
+    for combo in itertools.product((0, 1), repeat=3):
+        s2 = st.fork()
+        if all(assume(s2, ("in", bit), v)
+               for bit, v in zip((23, 22, 15), combo)) and satisfiable(s2):
+            cands.append(combo)
+    return cands[0] if len(cands) == 1 else b
+
+
 def check(run, repo, world):
     run.explanation = (
         "The decode leaves of the codec interpreter for 24-bit frames with "
@@ -97,8 +117,7 @@ def check(run, repo, world):
             if not isinstance(o, Obj) or o.cls is None or ev not in o.cls.mro:
                 # non-event result for an event-space frame?
                 if lane_val(st, ("in", 16)) == 0:
-                    b = (lane_val(st, ("in", 23)), lane_val(st, ("in", 22)),
-                         lane_val(st, ("in", 15)))
+                    b = _scheme_bits_of(st)
                     ok = b == (1, 1, 1)
                     run.ob("R-EVT-SCHEME", "%s#non-event:%s" % (mm, b), ok,
                            "a frame with bit 16 = 0 and scheme bits "
@@ -312,6 +331,8 @@ def check(run, repo, world):
     def summarise(fn, want):
         """{frozenset of isinstance outcomes: (key text, value text)}"""
         fn2 = normalise(fn, world, HLP, mp, aliases=False)
+        from ..normal import lift_nested_values
+        fn2 = lift_nested_values(fn2)
         out = {}
         for p_ in paths.summaries(fn2):
             conds = frozenset((unparse(t, 200), b) for (t, b) in p_.conds
